@@ -668,25 +668,34 @@ func (s *sim) checkExpectation(a *mAttr, ai *aItem, p string) {
 			fail("value_mismatch", "%s: attribute %q traversal reads back differently: %s", p, a.name, dumpTraversals([]hcl.Traversal{tr}))
 		}
 	case expTokens, expOrig:
-		if joinToks(a.exprTok) != joinToks(ai.exprTok) {
+		if !toksEqual(normToks(a.exprTok), normToks(ai.exprTok)) {
 			fail("value_mismatch", "%s: attribute %q expression tokens changed:\n  expected: %s\n  file:     %s", p, a.name, showToks(a.exprTok), showToks(ai.exprTok))
 		}
 	}
 }
 
-// joinToks concatenates the bytes of all tokens but newlines: how the scanner
-// splits the text into tokens ("-954" vs "-" "954") and where an expression
-// in brackets breaks its lines is not part of an expression's identity.
-func joinToks(ts []tok) string {
-	var b strings.Builder
+// normToks prepares an expression's tokens for comparison: newline tokens are
+// dropped (where an expression in brackets breaks its lines is layout), and a
+// negative number literal produced by a token builder as one token is split
+// the way the scanner splits it ("-954" -> "-" "954"), adjacent quoted-literal
+// tokens are merged.  Token boundaries are
+// otherwise kept: "foo bar" and "foobar" are different expressions.
+func normToks(ts []tok) []tok {
+	var r []tok
 	for _, t := range ts {
-		if t.T == hclsyntax.TokenNewline {
-			continue
+		switch {
+		case t.T == hclsyntax.TokenNewline:
+		case t.T == hclsyntax.TokenNumberLit && strings.HasPrefix(t.B, "-") && len(t.B) > 1:
+			r = append(r, tok{hclsyntax.TokenMinus, "-"}, tok{hclsyntax.TokenNumberLit, t.B[1:]})
+		case t.T == hclsyntax.TokenQuotedLit && len(r) > 0 && r[len(r)-1].T == hclsyntax.TokenQuotedLit:
+			// the scanner splits a quoted literal at escaped template
+			// introducers, token builders emit one token
+			r[len(r)-1].B += t.B
+		default:
+			r = append(r, t)
 		}
-		b.WriteString(t.B)
-		b.WriteByte(0)
 	}
-	return strings.ReplaceAll(b.String(), "\x00", "")
+	return r
 }
 
 // dropNewlines removes a trailing newline token that the scanner attributes to
